@@ -319,7 +319,7 @@ def o_normalize(name):
                 return None if _maybe_style(w2) else name.strip().lower()
             bg = w2.lower()
         elif w == "not":
-            w2 = next(it, "").lower()
+            w2 = next(it, "")  # as written: Style.parse does not lower-case the word after `not`
             if w2 not in ATTR:
                 return name.strip().lower()
             attrs[ATTR[w2]] = False
@@ -368,7 +368,7 @@ def o_style(text):
                 return None if _maybe_style(w2) else Style.null()
             bg = w2
         elif w == "not":
-            w2 = next(it, "").lower()
+            w2 = next(it, "")  # as written (see o_normalize)
             if w2 not in ATTR:
                 return Style.null()
             attrs[ATTR[w2]] = False
